@@ -41,7 +41,7 @@ def run_cases(ctx, binp, drv, cases):
 
 def refill(line, salt):
     """same program with different garbage in every `dft D cols size r5:seed` result buffer"""
-    return re.sub(r"(dft d \d+ \d+ r5:)(\d+)", lambda m: m.group(1) + str((int(m.group(2)) * 7919 + salt) % (1 << 30)), line)
+    return re.sub(r"((?:dft|big) d \d+ \d+ r\d+:)(\d+)", lambda m: m.group(1) + str((int(m.group(2)) * 7919 + salt) % (1 << 30)), line)
 
 
 def classify(ctx, binp, line, impl_ans, model_ans):
